@@ -122,7 +122,15 @@ def case(world):
     if tp.var_lb.tobytes() != rt.lb.tobytes() or tp.var_ub.tobytes() != rt.ub.tobytes():
         viol.append(V(ID, "bounds", "internal variable/slack bounds differ from the scaled user bounds", sub, {}))
     if tp.num_vars != rt.N or tp.num_cons != um.m:
-        viol.append(V(ID, "shape", "internal problem has %d variables / %d rows, expected %d / %d" % (tp.num_vars, tp.num_cons, rt.N, um.m), sub, {}))
+        viol.append(V(ID, "shape", "internal problem has %d variables / %d rows, expected %d / %d (rows with l != u get a slack, rows with l == u an offset)" % (tp.num_vars, tp.num_cons, rt.N, um.m), sub, {}))
+        for v in viol:
+            v["ctx"] = {"scaling": st, "fmt": world["problem"]["fmt"], "policy": world["problem"]["policy"]}
+        seen_c, vv = set(), []
+        for v in viol:
+            if v["sig"] not in seen_c:
+                seen_c.add(v["sig"])
+                vv.append(v)
+        return {"violations": vv, "stats": stats, "keys": [], "executions": 1, "sample": small_sample(world)}
     # start: slacks are the projection of c(x0), multipliers scaled
     xi0, yi0 = rt.to_internal(ex.x0, ex.y0)
     xs, ys = tr.transform_sol(ex.x0.copy(), ex.y0.copy())
